@@ -1,6 +1,7 @@
 package simrt
 
 import (
+	"os/exec"
 	"sync"
 	"sync/atomic"
 	"errors"
@@ -107,6 +108,35 @@ func Link(oldname, newname string) error {
 	}
 	W.fs[p] = src
 	return nil
+}
+
+// LookPath is exec.LookPath in the simulated world: the simulated PATH, the simulated files.
+func LookPath(file string) (string, error) {
+	enter()
+	defer leave()
+	if W == nil {
+		return exec.LookPath(file)
+	}
+	isFile := func(p string) bool {
+		n, e := W.lookup(W.resolve(p))
+		return e == 0 && !n.dir
+	}
+	if strings.Contains(file, "/") {
+		if isFile(file) {
+			return file, nil
+		}
+		return "", &exec.Error{Name: file, Err: exec.ErrNotFound}
+	}
+	path, _ := simEnv("PATH")
+	for _, dir := range filepath.SplitList(path) {
+		if dir == "" {
+			dir = "."
+		}
+		if p := filepath.Join(dir, file); isFile(p) {
+			return p, nil
+		}
+	}
+	return "", &exec.Error{Name: file, Err: exec.ErrNotFound}
 }
 
 // SameFile reports whether two FileInfos describe the same file (same inode), as os.SameFile does.
@@ -270,11 +300,18 @@ func Exit(code int) {
 // simulated environment: a few common variables exist and their values differ
 // from one logical epoch to the next, so that a value leaking into the output
 // is seen as a difference between two runs, deterministically.
-var simEnvKeys = []string{"HOME", "HOSTNAME", "LANG", "LOGNAME", "SHELL", "TERM", "TMPDIR", "TZ", "USER"}
+var simEnvKeys = []string{"HOME", "HOSTNAME", "LANG", "LOGNAME", "PATH", "SHELL", "TERM", "TMPDIR", "TZ", "USER"}
+
+// simPaths: the search path differs from epoch to epoch the way it differs between machines
+// (a package manager's directory in front of the system directories, or not).
+var simPaths = []string{"/usr/local/bin:/usr/bin:/bin", "/opt/homebrew/bin:/usr/bin:/bin", "/home/u/.nix-profile/bin:/usr/local/bin:/usr/bin:/bin", "/usr/bin:/bin"}
 
 func simEnv(key string) (string, bool) {
 	if key == "TMPDIR" {
 		return TempDir(), true
+	}
+	if key == "PATH" {
+		return simPaths[int(W.Epoch%int64(len(simPaths)))], true
 	}
 	for _, k := range simEnvKeys {
 		if k == key {
